@@ -194,7 +194,7 @@ impl Check for C18 {
             }
         });
         // (1b) sources whose channels equal their alpha, every level x every global alpha byte x every shader family
-        run.bound("alpha sweep", "256 levels (c = a) x 256 global alpha bytes x {solid, 1x1 image via the integer-translation shader, 1x1 image via the bilinear and nearest shaders, constant two-stop gradient, single-stop linear and radial gradients} x {Src on transparent, SrcOver on white}".to_string());
+        run.bound("alpha sweep", "256 levels (c = a) x 256 global alpha bytes x {solid, 1x1 image via the integer-translation shader, 1x1 image via the bilinear and nearest shaders, constant two-stop gradient, single-stop linear and radial gradients, a radial gradient of radius 1e-30} x {Src on transparent, SrcOver on white}".to_string());
         run.par(256, |v, l| {
             let v = v as u32;
             let c = (v << 24) | (v << 16) | (v << 8) | v;
@@ -208,6 +208,8 @@ impl Check for C18 {
                 // single-stop gradients (any shortcut for them must still premultiply)
                 SrcSpec::Linear { stops: vec![Stop { pos: 0.5, color: un }], spread: Spr::Repeat, p: [0., 0., 2., 0.] },
                 SrcSpec::Radial { stops: vec![Stop { pos: 0.0, color: un }], spread: Spr::Pad, p: [1., 0.5, 3.] },
+                // a radius so small that its square underflows (degenerate gradient matrix)
+                SrcSpec::Radial { stops: vec![Stop { pos: 0.0, color: 0xff000000 }, Stop { pos: 1.0, color: un }], spread: Spr::Pad, p: [1., 0.5, 1e-30] },
             ];
             for k in 0..256u32 {
                 let alpha = k as f32 / 255.0;
